@@ -108,7 +108,8 @@ def oracle_warmup(case: dict) -> Outcome:
     # AdamW in torch multiplies the parameter by (1 - lr*wd) first; Shampoo adds wd*w to the direction: identical up to rounding of lr*wd*w
     cum = [0.0] * len(pa)
     steps = 0
-    for t, mask in enumerate(c["masks"]):
+    masks = c["masks"] if "masks" in c else [c["cycle"][t % len(c["cycle"])] for t in range(c["T"])]
+    for t, mask in enumerate(masks):
         grads = gen.step_grads(c["shapes"], {"mask": mask, "gseed": c["seed"] + 13 * t, "gkind": c["gkind"], "gscale": c["gscale"]}, dt)
         for a, b, g in zip(pa, pb, grads):
             a.grad = None if g is None else g.clone()
@@ -146,9 +147,43 @@ def oracle_warmup(case: dict) -> Outcome:
         out.classes.append("momentum" + ("_nesterov" if nest else ""))
     if c["wd"]:
         out.classes.append("weight_decay")
-    if any(not all(m) for m in c["masks"]):
+    if any(not all(m) for m in masks):
         out.classes.append("absent_gradients")
+    if len(masks) > 1000:
+        out.classes.append("warmup_longer_than_1000_steps")
+        out.nontrivial = out.nontrivial or steps >= 1000
     return out
+
+
+def strategy_warmup_long():
+    """Warm-ups of more than a thousand steps during which the gradient-presence pattern changes at every step (alternating heads / experts)."""
+    from hypothesis import strategies as st
+
+    @st.composite
+    def case(draw: Any) -> dict:
+        c = draw(strategy_warmup())
+        c.pop("masks")
+        k = len(c["shapes"])
+        if k == 1:
+            c["shapes"] = c["shapes"] * 2
+            k = 2
+        elif draw(st.booleans()):
+            c["shapes"][1] = list(c["shapes"][0])
+        free = not (c["kind"] in ("adam", "adamw") or c["mom"])
+        if free:
+            L = draw(st.integers(2, 3))
+            cyc = [[draw(st.booleans()) for _ in range(k)] for _ in range(L)]
+            cyc[0] = [True, False] + cyc[0][2:]
+            cyc[1] = [False, True] + cyc[1][2:]
+        else:
+            cyc = [[True] * k, [False] * k, [True] * k]
+        c["cycle"] = cyc
+        c["T"] = draw(st.sampled_from([1003, 1040, 1100, 1300, 2060]))
+        c["lr"] = min(c["lr"], 0.00390625)
+        c["gscale"] = 1.0
+        return c
+
+    return case()
 
 
 # --------------------------------------------------------------------------- norm transfer
@@ -157,7 +192,7 @@ def strategy_norm():
 
     @st.composite
     def case(draw: Any) -> dict:
-        cfg = draw(gen.st_config(dtypes=(("f32", "f32"), ("f64", "f64"), ("f64", "f32")), solvers=("eigen", "eigen_stab"), kinds=("shampoo",),
+        cfg = draw(gen.st_config(dtypes=(("f32", "f32"), ("f64", "f64"), ("f64", "f32")), solvers=("eigen", "eigen_stab"), kinds=("shampoo", "shampoo", "soap"),
                                  graft_types=("sgd", "adagrad", "rmsprop", "adam")))
         cfg["momentum"], cfg["dampening"], cfg["nesterov"], cfg["wd"] = 0.0, 0.0, False, 0.0
         cfg["start"] = draw(st.integers(cfg["freq"], cfg["freq"] + 2))
@@ -184,6 +219,7 @@ def oracle_norm(case: dict) -> Outcome:
     t = 0
     checked = 0
     graft = cfg["graft"]
+    soap = cfg["precond"]["kind"] == "soap"
     for si, s in enumerate(case["steps"]):
         grads = gen.step_grads(shapes, s, dt)
         for p, g in zip(params, grads):
@@ -194,8 +230,15 @@ def oracle_norm(case: dict) -> Outcome:
             for pi, p in enumerate(params):
                 for bi in range(len(layout[pi][1])):
                     pre_fg[(pi, bi)] = opt.state[p][f"block_{bi}"]["filtered_grad"].detach().clone().double()
-        ok, _ = call_sut(out, "C02.step", "DistributedShampoo.step", opt.step)
-        if not ok:
+        try:
+            opt.step()
+        except Exception as e:  # noqa: BLE001
+            from .. import history
+
+            if history.is_lapack_failure(opt, params, e):
+                out.classes.append("lapack_eigh_returned_nan")  # see DESIGN 11.3: reproduced by an independent eigh of the stored factor
+                return out
+            call_sut(out, "C02.step", "DistributedShampoo.step", lambda: (_ for _ in ()).throw(e))
             return out
         if any(s["mask"]):
             t += 1
@@ -224,19 +267,37 @@ def oracle_norm(case: dict) -> Outcome:
                 order = g.dim()
                 ignored = cfg["precond"].get("ignored", [])
                 sel = [d not in ignored for d in range(order)]
-                mats = [m.double() for m in st_["shampoo"].inv_factor_matrices]
-                ds = rm.mode_apply(gbar, mats, sel)
                 delta = (p.detach().view(md)[sl].double() - prev[pi].view(md)[sl].double())
-                nd, ng, ns = float(delta.norm()), float(gd.norm()), float(ds.norm())
-                if not all(math.isfinite(x) for x in (nd, ng, ns)) or max(ng, ns) > 1e15:
-                    out.classes.append("overflow_domain")
-                    return out
-                if ns <= 1e-12 * (math.prod(rm.spec_norm(m) for m in mats) * float(gbar.norm()) + 1e-300) or ns < 1e-14:
-                    out.classes.append("zero_shampoo_direction")
-                    continue
-                # cancellation factor: how much of the operand norms survives in the Shampoo direction / in the update relative to w
-                P = math.prod(rm.spec_norm(m) for m in mats) if mats else 1.0
-                canc = P * float(gbar.norm()) / ns
+                if soap:
+                    # eigenvalue-corrected preconditioner: only the norm clause is checked here (the direction is C03's subject).  A lower bound of the
+                    # preconditioned direction's norm (orthonormal rotations; denominators (v/bc + eps)^(1/root) <= max(1, v/(1-beta2) + eps)) sizes the
+                    # effect of the documented 1e-16 guard
+                    mats, ds = [], None
+                    v = st_["shampoo"].corrected_eigenvalues.double()
+                    b2 = eff["beta2"]
+                    dmax = max(1.0, float(v.max()) / ((1.0 - b2) if b2 < 1.0 else 1.0) + eff["epsilon"]) if v.numel() else 1.0
+                    ns = float(gbar.norm()) / dmax
+                    nd, ng = float(delta.norm()), float(gd.norm())
+                    if not all(math.isfinite(x) for x in (nd, ng, ns)) or ng > 1e15:
+                        out.classes.append("overflow_domain")
+                        return out
+                    if ns < 1e-14:
+                        out.classes.append("zero_shampoo_direction")
+                        continue
+                    canc = 0.0
+                else:
+                    mats = [m.double() for m in st_["shampoo"].inv_factor_matrices]
+                    ds = rm.mode_apply(gbar, mats, sel)
+                    nd, ng, ns = float(delta.norm()), float(gd.norm()), float(ds.norm())
+                    if not all(math.isfinite(x) for x in (nd, ng, ns)) or max(ng, ns) > 1e15:
+                        out.classes.append("overflow_domain")
+                        return out
+                    if ns <= 1e-12 * (math.prod(rm.spec_norm(m) for m in mats) * float(gbar.norm()) + 1e-300) or ns < 1e-14:
+                        out.classes.append("zero_shampoo_direction")
+                        continue
+                    # cancellation factor: how much of the operand norms survives in the Shampoo direction / in the update relative to w
+                    P = math.prod(rm.spec_norm(m) for m in mats) if mats else 1.0
+                    canc = P * float(gbar.norm()) / ns
                 wn = float(prev[pi].view(md)[sl].double().norm())
                 lr = cfg["lr"]
                 # float32 bias-correction scalars (amplified by 1/bc, see refmodel.bias_corr) and the documented 1e-16 guard in the norm ratio
@@ -257,17 +318,23 @@ def oracle_norm(case: dict) -> Outcome:
                 if rel > tol:
                     out.fail("C02.norm.transfer", "block update norm differs from lr * norm of the grafted direction", f"step {t} param {pi} block {bi}: ||dw||={nd:.6e} lr*||graft||={lr * ng:.6e} tol {tol:.2e}", nd, lr * ng)
                     return out
+                if soap:
+                    continue
                 cos = float((delta * (-ds)).sum()) / (nd * ns) if nd > 0 else 1.0
                 out.metric("one_minus_cos_over_tol", (1 - cos) / tol)
                 if 1 - cos > tol:
                     out.fail("C02.norm.direction", "block update is not parallel to the Shampoo direction", f"step {t} param {pi} block {bi}: cos {cos:.8f} tol {tol:.2e}")
                     return out
     out.nontrivial = checked >= 1
-    out.classes += [f"graft_{graft['type']}", f"dtype_{cfg['pdtype']}"]
+    out.classes += [f"graft_{graft['type']}", f"dtype_{cfg['pdtype']}", "soap" if soap else "shampoo"]
     return out
 
 
+STREAMS_EXTRA = {
+    "warmup_long": Stream("warmup_long", oracle=oracle_warmup, strategy=strategy_warmup_long, quick=48, thorough=800, shards_quick=8, shards_thorough=16),
+}
 STREAMS = {
     "warmup": Stream("warmup", oracle=oracle_warmup, strategy=strategy_warmup, quick=3000, thorough=80000, shards_quick=16, shards_thorough=16),
     "norm": Stream("norm", oracle=oracle_norm, strategy=strategy_norm, quick=1000, thorough=30000, shards_quick=16, shards_thorough=16),
 }
+STREAMS.update(STREAMS_EXTRA)
